@@ -1,7 +1,7 @@
 ------------------------------- MODULE Str -------------------------------
 (* String helpers. TLC strings support Len, SubSeq and \o but have no order *)
 (* and no Head/Tail, so letters are handled as 1-character strings.         *)
-EXTENDS Naturals, Sequences, TLC
+EXTENDS Naturals, Sequences, FiniteSets, TLC
 
 Chars(s) == [i \in 1..Len(s) |-> SubSeq(s, i, i)]
 CharAt(s, i) == SubSeq(s, i, i)
@@ -26,6 +26,19 @@ UpC(c) == IF c \in LowerSet THEN ToUpperMap[c] ELSE c
 LoC(c) == IF c \in UpperSet THEN ToLowerMap[c] ELSE c
 IsLowerC(c) == c \in LowerSet
 ToUpper(s) == Join([i \in 1..Len(s) |-> UpC(SubSeq(s, i, i))])
+
+(* split s at every occurrence of the 1-character separator sep (always at least one piece) *)
+SplitStr(s, sep) ==
+    LET P == {i \in 1..Len(s) : SubSeq(s, i, i) = sep}
+        n == Cardinality(P)
+        pos == [k \in 0..n + 1 |-> IF k = 0 THEN 0 ELSE IF k = n + 1 THEN Len(s) + 1
+                                    ELSE CHOOSE i \in P : Cardinality({j \in P : j < i}) = k - 1] IN
+    [k \in 1..n + 1 |-> SubSeq(s, pos[k - 1] + 1, pos[k] - 1)]
+StartsWith(s, p) == Len(s) >= Len(p) /\ SubSeq(s, 1, Len(p)) = p
+(* natural number -> decimal string is ToString; decimal string -> natural number *)
+DigitOf == [c \in {"0","1","2","3","4","5","6","7","8","9"} |-> CASE c = "0" -> 0 [] c = "1" -> 1 [] c = "2" -> 2 [] c = "3" -> 3 [] c = "4" -> 4 [] c = "5" -> 5 [] c = "6" -> 6 [] c = "7" -> 7 [] c = "8" -> 8 [] c = "9" -> 9]
+IsNat(s) == Len(s) >= 1 /\ \A i \in 1..Len(s) : SubSeq(s, i, i) \in DOMAIN DigitOf
+ToNat(s) == LET f[i \in 0..Len(s)] == IF i = 0 THEN 0 ELSE 10 * f[i - 1] + DigitOf[SubSeq(s, i, i)] IN f[Len(s)]
 
 Rev(q) == [i \in 1..Len(q) |-> q[Len(q) + 1 - i]]
 ==========================================================================
